@@ -12,7 +12,7 @@ func (e *execState) shadowBlock(bo *blockObs, txs [][]byte) {
 	if len(e.shadows) == 0 || bo.Resp == nil {
 		return
 	}
-	want, _ := bo.Resp.Marshal()
+	want := consensusBytes(bo.Resp)
 	for _, sh := range e.shadows {
 		sh.ResetRec()
 		for i := range bo.Blk.Pre {
@@ -26,7 +26,7 @@ func (e *execState) shadowBlock(bo *blockObs, txs [][]byte) {
 			e.res.addV("C14", "replica.block_failed", "shadow", fmt.Sprintf("replica %s failed block %d that the primary executed: %v %s", sh.Name, bo.Idx, br.Err, br.Panic), bo.Idx, -1)
 			return
 		}
-		got, _ := br.Resp.Marshal()
+		got := consensusBytes(br.Resp)
 		if string(got) != string(want) {
 			e.res.addV("C14", "replica.response", "shadow", fmt.Sprintf("replica %s produced a different FinalizeBlock response for block %d (%s)", sh.Name, bo.Idx, firstEventDiff(bo.Resp, br.Resp)), bo.Idx, -1)
 		}
